@@ -251,6 +251,9 @@ class Run:
             "known_findings_hit": self.known_hits,
             "trusted_base": PLAN.TRUSTED + p.get("trusted", []),
         }
+        if not self.mc:
+            # no bounded model-checking run in this plan yet: report the exploration-style counts only
+            del cov["states"], cov["transitions"]
         cov.update(self.extra)
         ev = {"property_id": self.prop, "tier": self.tier, "seed": self.seed, "level": p["level"], "coverage": cov,
               "assumptions": PLAN.ASSUMPTIONS + p.get("assumptions", []), "wall_s": round(time.time() - self.t0, 1),
